@@ -277,14 +277,6 @@ Definition stabilise (fuel : nat) : M unit :=
 Definition is_stable (s : state) : bool :=
   bool_decide (rch_len s = 0) && bool_decide (dead_vars s = []) && bool_decide (new_obs s = []).
 
-(* set_max_height_allowed (state.rs:449) *)
-Definition set_max_height_allowed (new_max : Z) : M unit :=
-  st <- gets st_status ;;
-  match st with
-  | Stabilising => panic PSetMaxDuringStabilise
-  | _ => ahh_set_max_height_allowed new_max ;;; rch_set_max_height_allowed new_max
-  end.
-
 (* State::new_with_height (state.rs:124) *)
 Definition init_state (max_height : Z) (dbg : bool) : state :=
   State [] [] [] []
